@@ -191,10 +191,10 @@ def Store.timerKeys (s : Store) : List Bytes := s.parts.flatMap fun q => s.db.sc
 structure Registry where
   store : Store
   ups : Wm.Ups
-  wm : Int              -- `watermark`, starts as `time.Time{}`
+  wm : Int              -- `watermark`, starts as `Wm.regInit` (the epoch since the D58 repair)
 deriving Repr
 
-def Registry.new (store : Store) (ids : List String) : Registry := ⟨store, Wm.Ups.init ids, Wm.zeroTime⟩
+def Registry.new (store : Store) (ids : List String) : Registry := ⟨store, Wm.Ups.init ids, Wm.regInit⟩
 
 /-- `SetTimer` -/
 def Registry.setTimer (r : Registry) (key : Bytes) (t : Int) : Registry :=
@@ -226,7 +226,7 @@ structure Spec where
   wm : Int
 deriving Repr
 
-def Spec.new (ids : List String) : Spec := ⟨[], Wm.Ups.init ids, Wm.zeroTime⟩
+def Spec.new (ids : List String) : Spec := ⟨[], Wm.Ups.init ids, Wm.regInit⟩
 
 /-- a timer later than the watermark becomes pending (once); others are ignored -/
 def Spec.setTimer (s : Spec) (key : Bytes) (t : Int) : Spec :=
